@@ -30,12 +30,15 @@ ASSUMPTIONS = [
     "points with y=0 (2-torsion) are a recorded known finding class (KNOWN_FINDINGS.txt)",
 ]
 
-REPCLASS = {"J1": "z1", "Jz2": "z", "Jzm1": "z", "Jz3": "z", "Jneg": "negz1", "Jnegz3": "negz",
+REPCLASS = {"INFcopy": "inf", "J1": "z1", "Jz2": "z", "Jzm1": "z", "Jz3": "z", "Jneg": "negz1", "Jnegz3": "negz",
             "Jacc": "acc", "L": "legacy", "INF": "inf"}
 
 
 def _mk(cf, c, P, rep, helper, twin=False):
     if P is None:
+        if rep == "INFcopy":
+            import pickle
+            return pickle.loads(pickle.dumps(INFINITY))     # equal to, but not identical with, the singleton
         return INFINITY
     if twin:
         # the same curve held in a second, equal CurveFp object (unpickled point, user-built curve)
@@ -66,6 +69,8 @@ def check_pair(ctx, c, P, Q, rp, rq, hp=None, hq=None, enum=False):
     case = {"kind": "pair", "c": list(c), "P": P and list(P), "Q": Q and list(Q), "rp": rp, "rq": rq,
             "hp": hp and list(hp), "hq": hq and list(hq)}
     rc = REPCLASS[rp if P is not None else "INF"] + "+" + REPCLASS[rq if Q is not None else "INF"]
+    if P is None and Q is None and "INFcopy" in (rp, rq):
+        return      # two neutral elements: nothing of PointJacobi is involved
     ctx.case_sample(case)
 
     legacy_only = all(r in ("legacy", "inf") for r in rc.split("+"))
@@ -185,11 +190,56 @@ def sweep_curve(ctx, c, reps):
             check_unary(ctx, c, P, rp, helpers[P], enum=True)
     for P in allp:
         for Q in allp:
-            rps = reps if P is not None else ("INF",)
-            rqs = reps if Q is not None else ("INF",)
+            rps = reps if P is not None else ("INF", "INFcopy")
+            rqs = reps if Q is not None else ("INF", "INFcopy")
             for rp in rps:
                 for rq in rqs:
                     check_pair(ctx, c, P, Q, rp, rq, helpers.get(P), helpers.get(Q), enum=True)
+
+
+def sweep_ordered(ctx, c):
+    """operands that carry a declared order which is true of the operand itself (its exact order, or the
+    group order): sums with points outside that subgroup, conversion to affine form, equality"""
+    pts = rec.points(c)
+    p = c[0]
+    N = rec.group_order(c)
+    for h in (None, 1):
+        cf = CurveFp(p, c[1], c[2]) if h is None else CurveFp(p, c[1], c[2], h)
+        for P in pts:
+            oP = rec.order(c, P)
+            for Q in pts:
+                want = rec.add(c, P, Q)
+                if _y0(P, Q, want, want and rec.dbl(c, want)):
+                    continue          # y = 0 class: covered (and recorded as a known finding) by the main sweep
+                for rp, rq, decl in (("J1", "J1", oP), ("Jz2", "L", oP), ("L", "J1", oP), ("J1", "Jz2", N)):
+                    if h == 1 and decl != N and N != oP:
+                        continue      # cofactor declared 1 although the group is larger: not a consistent curve object
+                    case = {"kind": "ordered", "c": list(c), "P": list(P), "Q": list(Q), "rp": rp, "rq": rq,
+                            "order": decl, "h": h}
+                    ctx.ev()
+                    try:
+                        A = EU.build(cf, c, P, rp, order=decl)
+                        B = EU.build(cf, c, Q, rq)
+                        if A is None or B is None:
+                            continue
+                        R = A + B
+                        why = EU.result_matches(R, want, p)
+                        if why is None and want is not None and hasattr(R, "to_affine"):
+                            aff = R.to_affine()
+                            if (aff.x(), aff.y()) != want:
+                                why = "to_affine of sum differs"
+                        if why is None and want is not None and want[1] != 0:
+                            D = (R + R) if not hasattr(R, "double") else R.double()
+                            why = EU.result_matches(D, rec.dbl(c, want), p)
+                            if why is None and (R == EU.build(cf, c, want, "J1")) is not True:
+                                why = "sum not equal to the reference point"
+                    except Exception as e:
+                        why = "exception " + exc_sig(e)
+                    if why:
+                        ctx.fail("ordered/%s" % why.replace(" ", "-"), case,
+                                 "%s; reference %r" % (why, want))
+                    if oP != N:
+                        ctx.nontrivial_enum()
 
 
 def cross_curve_eq(ctx, c1, reps):
@@ -352,6 +402,8 @@ def run_unit(ctx, name, **kw):
         for c in kw["curves"]:
             sweep_curve(ctx, tuple(c), tuple(kw["reps"]))
             cross_curve_eq(ctx, tuple(c), tuple(kw["reps"]))
+            if c[0] <= 13:
+                sweep_ordered(ctx, tuple(c))
         c0 = kw["curves"][0]
         ctx.sample({"kind": "sweep", "c": c0, "points": len(rec.points(tuple(c0))) + 1,
                     "reps": kw["reps"], "note": "all ordered pairs x all representation pairs"})
@@ -365,9 +417,31 @@ def run_unit(ctx, name, **kw):
         raise ValueError(name)
 
 
+def replay_ordered(ctx, case):
+    c = tuple(case["c"])
+    p = c[0]
+    cf = CurveFp(p, c[1], c[2]) if case["h"] is None else CurveFp(p, c[1], c[2], case["h"])
+    P, Q = tuple(case["P"]), tuple(case["Q"])
+    want = rec.add(c, P, Q)
+    ctx.ev()
+    try:
+        R = EU.build(cf, c, P, case["rp"], order=case["order"]) + EU.build(cf, c, Q, case["rq"])
+        why = EU.result_matches(R, want, p)
+        if why is None and want is not None and hasattr(R, "to_affine"):
+            aff = R.to_affine()
+            if (aff.x(), aff.y()) != want:
+                why = "to_affine of sum differs"
+    except Exception as e:
+        why = "exception " + exc_sig(e)
+    if why:
+        ctx.fail("ordered/%s" % why.replace(" ", "-"), case, why)
+
+
 def replay(ctx, case):
     k = case["kind"]
     t = lambda v: None if v is None else tuple(v)
+    if k == "ordered":
+        return replay_ordered(ctx, case)
     if k == "pair":
         check_pair(ctx, tuple(case["c"]), t(case["P"]), t(case["Q"]), case["rp"], case["rq"],
                    t(case.get("hp")), t(case.get("hq")))
